@@ -89,6 +89,8 @@ def run_tlc(module: str, cfg: str | None, scratch: Path, env: dict | None = None
     e = dict(os.environ)
     e["OUTD"] = str(outdir)
     e.update({k: str(v) for k, v in (env or {}).items()})
+    # a timeout is there to end a run that hangs, not to judge a loaded machine: never less than 15 minutes
+    timeout = max(int(timeout), 900)
     t0 = time.time()
     try:
         p = subprocess.run(cmd, cwd=str(scratch), env=e, capture_output=True, text=True, timeout=timeout)
